@@ -81,6 +81,12 @@ func loadRSA() {
 // the remaining ones (4096, 6144, 8192 bits) are slow to sign with.
 const RSAFast = 4
 
+// RSATwin: key RSATwinIdx is a 2048-bit key built so that its modulus shares its 126 leading bytes with the
+// modulus of key 0 (p random, q the next prime after N0/p). Their did:key identifiers, PKCS#1 encodings and
+// multikey bytes share a long prefix: anything that identifies a key by a truncated or partial form of it
+// confuses the two.
+const RSATwinIdx = 7
+
 // RSAPoolSize is the number of committed RSA keys.
 func RSAPoolSize() int {
 	mu.Lock()
